@@ -163,6 +163,11 @@ Section StepKernel.
     forall n' names' sst' cdict', In (n', (names', sst')) (decl_cplx prev) -> rot_dict names' sst' = Some cdict' ->
       forall k, In k (map fst cdict) -> ~ In k (map fst cdict').
 
+  (* every declared complex is built with the sequence and structure of its declaration *)
+  Lemma decl_cplx_built prev r acc n names sst :
+    SInv prev r acc -> In (n, (names, sst)) (decl_cplx prev) -> exists conc, BuiltCplx cc r acc n names sst conc.
+  Proof. intros [C _]. apply (si_cplx _ _ _ _ _ _ _ _ _ C). Qed.
+
   Lemma cplx_keys_fresh prev r acc cdict :
     SInv prev r acc -> rot_disjoint prev cdict ->
     forall k, In k (map fst cdict) -> klookup (KCplx k) (cs_canon (cget (r_st r) cc)) = None.
@@ -176,8 +181,7 @@ Section StepKernel.
     rewrite RegC in N1.
     pose proof (dlookup_in_keys _ _ _ N1) as Hin. apply (si_keys _ _ _ _ _ _ _ _ _ C KindC) in Hin.
     cbn [declared] in Hin. apply in_map_iff in Hin. destruct Hin as [[n' [names' sst']] [En Hin]]. cbn in En.
-    pose proof Hin as Hin2. apply decl_cplx_in in Hin2. destruct Hin2 as [conc' Hin2].
-    destruct (B _ Hin2) as [i' [es' [cdict' [cn' [e' [D1 [_ [_ [D3 [D4 [D5 _]]]]]]]]]]].
+    destruct (decl_cplx_built prev r acc n' names' sst' (conj C B) Hin) as [conc' [i' [es' [cdict' [cn' [e' [D1 [_ [_ [D3 [D4 [D5 _]]]]]]]]]]]].
     rewrite En, N1 in D1. injection D1 as <-. pose proof (eq_trans (eq_sym Ho) D5) as Eo. injection Eo as ->.
     cbn [o_keys new_obj] in Hkk.
     assert (Hk' : In k (map fst cdict')).
@@ -188,82 +192,4 @@ Section StepKernel.
     exact (Hdis n' names' sst' cdict' Hin D3 k Hk Hk').
   Qed.
 
-  Theorem step_kernel prev r acc line n names sst conc cdict cn e :
-    SInv prev r acc -> decode line = Ok (SKer n names sst conc) ->
-    nonempty n = true -> ~ In n (map fst (decl_cplx prev)) -> length names = length sst ->
-    Forall (fun x => str_eqb x sPlus = true \/ In x (declared KindD prev)) names ->
-    rot_dict names sst = Some cdict -> canon_of cdict = Some (cn, e) -> rot_disjoint prev cdict ->
-    exists r' acc', read_one ct G None (TList line) acc r = (r', Ok acc') /\
-      SInv (prev ++ [SKer n names sst conc]) r' acc' /\ Later r acc r' acc'.
-  Proof.
-    intros SI Hdec Hne Hnew Hlen Hnames Hrd Hcan Hdis. pose proof SI as [C B].
-    set (st := r_st r). set (i := length (heap st)).
-    pose proof (si_sok _ _ _ _ _ _ _ _ _ C) as OK. pose proof (proj1 OK) as I.
-    (* the cells *)
-    assert (Hex : exists cells, Forall2 (fun x c => CellReg st x c /\ ElemOf (po_domains acc) x (cell_elem st c)) names cells).
-    { apply forall_exists_forall2. eapply Forall_impl; [|exact Hnames]. cbn. intros x Hx.
-      unfold CellReg, ElemOf. destruct (str_eqb x sPlus) eqn:Ep.
-      - exists (CStr x). split; reflexivity.
-      - destruct Hx as [Hx|Hx]; [discriminate|].
-        destruct (dom_lookup_facts ct cd cs cc cm cr prev r acc x SI Hx) as [j [l [H1 [H2 H3]]]].
-        exists (CDom j). split; [eauto|]. exists j. split; [exact H1|].
-        cbn [cell_elem]. unfold elem_of, oname, obj_name. fold st in H2. rewrite H2. reflexivity. }
-    destruct Hex as [cells F].
-    assert (F1 : Forall2 (CellReg (r_st r)) names cells) by (eapply Forall2_impl'; [|exact F]; cbn; tauto).
-    set (temps := flat_map cell_refs cells).
-    pose proof (kernel_sequence_exact names sst cells r OK F1) as Ek. fold st in Ek. fold temps in Ek.
-    destruct (first_attempt_exact names cells r OK F1) as [_ Lv]. fold temps in Lv.
-    pose (es := (map (cell_elem st) cells : list elem)).
-    assert (Fe : Forall2 (ElemOf (po_domains acc)) names es).
-    { unfold es. clear -F. induction F as [|x c names cells [_ H] F IH]; cbn [map]; constructor; assumption. }
-    assert (Hf1 : map fst es = names).
-    { clear -Fe. induction Fe as [|x e0 names es0 H F IH]; [reflexivity|]. cbn [map]. f_equal; [|exact IH].
-      unfold ElemOf in H. destruct (str_eqb x sPlus); [subst e0; reflexivity | destruct H as [j [_ ->]]; reflexivity]. }
-    assert (Hids : elem_ids es = temps) by apply elem_ids_cells.
-    assert (Hle : length es = length sst) by (rewrite <- Hlen, <- Hf1, map_length; reflexivity).
-    (* the name and the rotations are new *)
-    pose proof (si_reg _ _ _ _ _ _ _ _ _ C KindC ltac:(discriminate)) as RegC. cbn [cls_of ReaderSysA.cls_of dict_of] in RegC.
-    assert (Nn : nlookup n (cs_names (cget st cc)) = None).
-    { unfold st. rewrite RegC. apply dlookup_notin. intros Hin.
-      apply (si_keys _ _ _ _ _ _ _ _ _ C KindC) in Hin. contradiction. }
-    pose proof (cplx_keys_fresh prev r acc cdict SI Hdis) as Kf. fold st in Kf.
-    set (key := KCplx cn). set (extra := map (fun kv : ckey * nat => KCplx (fst kv)) cdict).
-    set (d := DCplx es sst (wrap (- Z.of_nat e) (Z.of_nat (nstrands names)))).
-    set (cn' := match conc with Some x => attr_set i x (r_conc r) | None => r_conc r end).
-    (* read_pil_line *)
-    assert (Ex : exec_stmt ct G line (SKer n names sst conc) r =
-                 (mkR (hold (mk_new (holds st temps) (cls_of KindC) n key extra temps d) i) (r_seq r) cn' (r_rate r),
-                  Ok (RObj i))).
-    { cbn [exec_stmt]. rewrite (bind_ok _ _ _ _ _ Ek). cbn [gC g slot]. rewrite bind_ret.
-      rewrite (bind_ok get_state _ _ _ _ eq_refl). cbn [r_st with_st fst snd].
-      change (map (cell_elem (holds st temps)) cells) with es.
-      assert (Ec : cplx_call ct cc (holds st temps) (Some es) (Some sst) (Some n) None =
-                   (mk_new (holds st temps) cc n key extra temps d, CRet i true)).
-      { assert (Ec0 := cplx_new_exact (holds st temps) es sst n cdict cn e Hle).
-        rewrite Hf1, Hids in Ec0. apply Ec0; assumption. }
-      assert (Ecall : call (fun st' => cplx_call ct cc st' (Some es) (Some sst) (Some n) None) (with_st r (holds st temps)) =
-                      (with_st r (hold (mk_new (holds st temps) cc n key extra temps d) i), Ok i)).
-      { unfold call. cbn [r_st with_st]. rewrite Ec. reflexivity. }
-      rewrite (bind_ok _ _ _ _ _ Ecall). subst cn'. destruct conc as [x|]; reflexivity. }
-    destruct (step_single ct cd cs cc cm cr CO prev r acc line (SKer n names sst conc) KindC n
-                key extra temps d temps cn' SI Hdec ltac:(cbn; auto) Ex) as [E3 [SI' L']].
-    - split; [exact Nn|]. split; [apply Kf; eapply canon_of_in; eauto|].
-      intros k' Hk'. unfold extra in Hk'. apply in_map_iff in Hk'. destruct Hk' as [[k2 v2] [<- Hk2]]. cbn.
-      apply Kf. apply (in_map fst) in Hk2. exact Hk2.
-    - exact Lv.
-    - exact Logic.I.
-    - intros k' n0 Hn0. destruct k'; cbn in Hn0; try tauto. destruct Hn0 as [<-|[]]. auto.
-    - cbn. auto.
-    - reflexivity.
-    - reflexivity.
-    - intros j Hj. subst cn'. destruct conc as [x|]; [|reflexivity].
-      rewrite attr_get_set. apply Nat.eqb_neq in Hj. unfold i, st. rewrite Hj. reflexivity.
-    - intros C' L'. cbn [Built ReaderSysA.Built]. exists i, es, cdict, cn, e.
-      split; [cbn [po_complexes with_dict with_complexes dict_of]; rewrite dlookup_dset, (proj2 (str_eqb_iff n n) eq_refl); reflexivity|].
-      split; [exact Hne|]. split; [exact Fe|]. split; [exact Hrd|]. split; [exact Hcan|].
-      split; [cbn [r_st hold heap]; rewrite heap_mk_new, Hids; apply hget_new|].
-      cbn [r_conc]. subst cn'. destruct conc as [x|]; [rewrite attr_get_set, Nat.eqb_refl; reflexivity|].
-      destruct (si_attr _ _ _ _ _ _ _ _ _ C i) as [_ [A _]]; [fold st; fold i; lia | exact A].
-    - eauto.
-  Qed.
 End StepKernel.
